@@ -18,7 +18,7 @@ From Verif Require Wire.Msgpack Wire.MsgpackProofs Wire.MsgpackRT.
 From Verif Require Wire.Simple Wire.SimpleProofs Wire.SimpleSkip.
 From Verif Require Wire.Binc Wire.BincProofs.
 From Verif Require Generic.Types Generic.Enc Generic.Dec C01.Model.
-From Verif Require Wire.Json Wire.JsonRT Wire.JsonSkip C11.InstJson C11.ProofsJson Properties.W_json.
+From Verif Require Wire.Json Wire.JsonRT Wire.JsonSkip Wire.JsonLeaf Wire.CborTime C11.InstJson C11.ProofsJson Properties.W_json.
 Import ListNotations.
 
 (* ---------------- the sequence theorem, once, over the abstract laws ---------------- *)
@@ -93,6 +93,49 @@ Section Cbor.
   Proof. exact cbor_raw_redecode_lemma. Qed.
   Print Assumptions C11_cbor_raw_redecode_partial.
 
+  (* ---- the extended decode law (Wcbor_dec_enc): [lib_supports_t] / [tdepth_t] / [norm_t] also admit times
+     written in the RFC 3339 form (tag 0; TimeRFC3339 = true, UTC year 0..9999: Wcbor_time_rfc3339) wherever
+     they occur; the float form (tag 1) of a non-zero time stays outside ---- *)
+
+  (* decode and the walker stop at the same byte (full for everything the extended law admits) *)
+  Theorem C11_cbor_extent : forall (O : eopts) (D : dopts) (i : item) (d : Z) (rest : list N),
+    wf i -> plain i -> lib_supports_t D (tree_of O i) -> (tdepth_t D (tree_of O i) < maxdepth D)%Z ->
+    (d + sdepth (tree_of O i) < maxdepth D)%Z ->
+    dec_naked D (fuel_for (enc O i ++ rest)) (enc O i ++ rest) = Ok (norm_t O D i, rest)
+    /\ skip D (fuel_for (enc O i ++ rest)) d (enc O i ++ rest) = Ok rest.
+  Proof. exact cbor_extent_lemma. Qed.
+  Print Assumptions C11_cbor_extent.
+
+  Theorem C11_cbor_raw_redecode : forall (O : eopts) (D : dopts) (i : item) (d : Z) (rest rest' : list N) (b : list N),
+    wf i -> plain i -> lib_supports_t D (tree_of O i) -> (tdepth_t D (tree_of O i) < maxdepth D)%Z ->
+    capture (enc O i ++ rest) (skip D (fuel_for (enc O i ++ rest)) d (enc O i ++ rest)) = Ok (b, rest) ->
+    (d + sdepth (tree_of O i) < maxdepth D)%Z ->
+    dec_naked D (fuel_for (b ++ rest')) (b ++ rest') = Ok (norm_t O D i, rest').
+  Proof. exact cbor_raw_redecode_t_lemma. Qed.
+  Print Assumptions C11_cbor_raw_redecode.
+
+  (* sequences, full for every item the extended law admits ([CborI.ok_t]: wf, plain, lib_supports_t, nesting
+     below MaxDepth): in particular, with TimeRFC3339 = true, items holding times (C11_cbor_time_admitted) *)
+  Theorem C11_cbor_seq : forall (O : eopts) (D : dopts) (d : Z) (TY V : Type) (typed : TY -> item -> V)
+      (vs : list item) (ms : list (mode TY)) (tl : list N),
+    length ms = length vs -> Seq.ok_seq (CborI.Ft O D d) (CborI.ok_t O D d) vs tt tl ->
+    exists ns,
+      Seq.dec_seq (CborI.Ft O D d) TY V typed ms (Seq.bytes_seq (CborI.Ft O D d) vs tt ++ tl)
+        = Ok (Seq.project (CborI.Ft O D d) TY V typed ms vs tt, ns, tl)
+      /\ map (fun r => length (Seq.bytes_seq (CborI.Ft O D d) vs tt ++ tl) - r)%nat ns
+         = Seq.prefix_sums 0 (map (@length N) (fst (Seq.enc_seq (CborI.Ft O D d) vs tt))).
+  Proof. exact cbor_seq_t_lemma. Qed.
+  Print Assumptions C11_cbor_seq.
+
+  (* a time written under TimeRFC3339 (UTC year 0..9999) meets the premises of C11_cbor_seq *)
+  Theorem C11_cbor_time_admitted : forall (O : eopts) (D : dopts) (d : Z) (s : Z) (n : N) (e : unit) (tl : list N),
+    eo_rfc3339 O = true -> Wire.CborTime.year_ok s = true -> (n < 1000000000)%N ->
+    (- 9223372036854775808 <= s < 9223372036854775807)%Z -> (0 <= d)%Z -> (d + 1 < maxdepth D)%Z ->
+    CborI.ok_t O D d (ITime s n) e tl.
+  Proof. exact cbor_time_ok_t. Qed.
+  Print Assumptions C11_cbor_time_admitted.
+
+  (* the float form of times: PARTIAL as before *)
   (* sequences: any number of values, any consumers.  PARTIAL: items whose decode law is proved
      ([CborI.ok]: wf, plain, lib_supports — no non-zero time —, nesting below MaxDepth) *)
   Theorem C11_cbor_seq_partial : forall (O : eopts) (D : dopts) (d : Z) (TY V : Type) (typed : TY -> item -> V)
@@ -210,30 +253,33 @@ End Binc.
 
 
 (* ---------------- json: the pending token is the per-instance state, slack = 1 ---------------- *)
-(* PARTIAL, all three: they inherit the hypothesis [leaf_laws L] of the json wire theorems
-   (Properties/W_json.v: the lexical laws of string quoting / float / time texts, property C09's domain,
-   not yet discharged for the concrete leaf c09_leaf).  Everything else - the tokenizer, the container
-   grammar, the walker, the sequence induction - is proved. *)
+(* Stated for the C09 leaf [c09_leaf_of O] (C09's string quoting / unquoting and integer texts; O = the
+   oracle for strconv float texts, parseFloat64 and the RFC 3339 time text).  PARTIAL, all three: the string
+   and integer laws are discharged from property C09's theorems (Wire/JsonLeaf.v c09_leaf_laws); what remains
+   a hypothesis is [float_time_laws]: strconv's shortest float formatting, parseFloat64 on the texts the
+   encoder writes, and the time layout (not modelled: oracle).  Everything else - the tokenizer, the
+   container grammar, the walker, the sequence induction - is proved.  (For an arbitrary leaf under
+   [leaf_laws L]: C11/ProofsJson.v json_skip_lemma / json_raw_lemma / json_seq_lemma.) *)
 Section Json.
-  Import Wire.Json Wire.JsonRT Wire.JsonSkip.
+  Import Wire.Json Wire.JsonRT Wire.JsonSkip Wire.JsonLeaf.
 
   (* decode and the walker, started in ANY tokenizer state that presents the value's text [enc_at ...]
      followed by [tl] (a bare number must be followed by a byte that ends it), return norm of the value /
      exactly the text, and leave the SAME tokenizer state [after ..]: nothing pending and [tl] unread,
      except after a bare number, whose terminating byte is the pending token (the permitted delimiter) *)
-  Theorem C11_json_skip_partial : forall (L : leaf), leaf_laws L ->
+  Theorem C11_json_skip_partial : forall (O : oracle), float_time_laws (c09_leaf_of O) -> let L := c09_leaf_of O in
     forall (o : eopts) (D : dopts) (lvl : N) (i : item) (s : st) (tl : list N) (fuel : nat) (dp : Z),
     jwf L o D false i -> (dp + Z.of_nat (depth i) < maxdepth D)%Z ->
     advance s = advance (mkst 0 (enc_at L o false lvl i ++ tl)) -> delim_ok (isnum L o false i) tl ->
     (2 * length (enc_at L o false lvl i) <= fuel)%nat ->
     dec L D fuel dp false s = Ok (norm L o D false i, after (isnum L o false i) tl)
     /\ nvb s = Ok (enc_at L o false lvl i, after (isnum L o false i) tl).
-  Proof. exact ProofsJson.json_skip_lemma. Qed.
+  Proof. exact ProofsJson.json_skip_c09. Qed.
   Print Assumptions C11_json_skip_partial.
 
   (* raw: what nextValueBytes hands back is exactly the value's text (since FWjson-1 without the byte that
      ends a number), and re-emitted in front of anything that may follow it decodes to the original *)
-  Theorem C11_json_raw_partial : forall (L : leaf), leaf_laws L ->
+  Theorem C11_json_raw_partial : forall (O : oracle), float_time_laws (c09_leaf_of O) -> let L := c09_leaf_of O in
     forall (o : eopts) (D : dopts) (lvl : N) (i : item) (s : st) (tl tl' : list N) (b : list N) (s' : st),
     jwf L o D false i -> (Z.of_nat (depth i) < maxdepth D)%Z ->
     advance s = advance (mkst 0 (enc_at L o false lvl i ++ tl)) -> delim_ok (isnum L o false i) tl ->
@@ -241,7 +287,7 @@ Section Json.
     nvb s = Ok (b, s') ->
     b = enc_at L o false lvl i
     /\ dec L D (2 * length b) 0 false (st0 (b ++ tl')) = Ok (norm L o D false i, after (isnum L o false i) tl').
-  Proof. exact ProofsJson.json_raw_lemma. Qed.
+  Proof. exact ProofsJson.json_raw_c09. Qed.
   Print Assumptions C11_json_raw_partial.
 
   (* sequences: each Encode call writes [enc_top] (the text, then the TermWhitespace byte if on); any number
@@ -250,7 +296,7 @@ Section Json.
      [project] says (Raw = the text alone), the unread count after each call is within ONE byte of the exact
      position ([close 1]: the TermWhitespace byte still unread, or the byte after a bare number already
      taken), and the final tokenizer state presents exactly the trailing bytes. *)
-  Theorem C11_json_seq_partial : forall (L : leaf), leaf_laws L ->
+  Theorem C11_json_seq_partial : forall (O : oracle), float_time_laws (c09_leaf_of O) -> let L := c09_leaf_of O in
     forall (o : eopts) (D : dopts) (TY V : Type) (typed : TY -> item -> V)
       (vs : list item) (ms : list (mode TY)) (tl : list N),
     length ms = length vs -> Seq.ok_seq (InstJson.F L o D) (InstJson.ok L o D) vs tt tl ->
@@ -259,7 +305,7 @@ Section Json.
         = Ok (Seq.project (InstJson.F L o D) TY V typed ms vs tt, ns, s')
       /\ Forall2 (close 1) ns (Seq.rems (InstJson.F L o D) vs tt tl)
       /\ advance s' = advance (mkst 0 tl) /\ (length tl - 1 <= length (inp s') <= length tl + 1)%nat.
-  Proof. exact ProofsJson.json_seq_lemma. Qed.
+  Proof. exact ProofsJson.json_seq_c09. Qed.
   Print Assumptions C11_json_seq_partial.
 End Json.
 
@@ -327,3 +373,25 @@ Example C11_json_seq_nonvacuous :
     = Ok ([OSkipped; ORaw [91; 116; 114; 117; 101; 44; 34; 97; 34; 93]%N; ONaked (IInt (-5));
            ORaw [123; 34; 107; 34; 58; 49; 46; 53; 125]%N], [24; 14; 10; 1]%nat, s').
 Proof. cbv zeta. split; [vm_compute; reflexivity|split; [vm_compute; reflexivity|eexists; vm_compute; reflexivity]]. Qed.
+
+(* cbor, TimeRFC3339: a time, a number and another time, read back as raw / skip / naked on one Decoder: the
+   premises of C11_cbor_seq hold and the third call returns the instant rounded to the microsecond *)
+Example C11_cbor_seq_nonvacuous :
+  let O := Cbor.mkeo false true false false in
+  let D := Cbor.mkdo false false false 0 in
+  let vs := [ITime 1700000000 123456789%N; IUint 300%N; ITime 1 5600%N] in
+  Seq.ok_seq (CborI.Ft O D 0) (CborI.ok_t O D 0) vs tt [] /\
+  exists raw1,
+  Seq.dec_seq (CborI.Ft O D 0) unit unit (fun _ _ => tt) [MRaw; MSkip; MNaked] (Seq.bytes_seq (CborI.Ft O D 0) vs tt)
+    = Ok ([ORaw raw1; OSkipped; ONaked (ITime 1 6000%N)], [34; 31; 0]%nat, []) /\ length raw1 = 33%nat.
+Proof.
+  cbv zeta. split.
+  - cbn [Seq.ok_seq]. split; [|split; [|split; [|exact I]]].
+    + apply C11_cbor_time_admitted; try (vm_compute; reflexivity); try (vm_compute; discriminate);
+        split; vm_compute; [discriminate|reflexivity].
+    + unfold CborI.ok_t. split; [|split; [|split; [|split]]];
+      [vm_compute; reflexivity|exact I|cbn; intro; discriminate|vm_compute; reflexivity|vm_compute; reflexivity].
+    + apply C11_cbor_time_admitted; try (vm_compute; reflexivity); try (vm_compute; discriminate);
+        split; vm_compute; [discriminate|reflexivity].
+  - eexists. split; vm_compute; reflexivity.
+Qed.
